@@ -50,6 +50,7 @@ import (
 	"github.com/gogo/protobuf/proto"
 
 	"github.com/haqq-network/haqq/app"
+	haqqtypes "github.com/haqq-network/haqq/types"
 	feemarkettypes "github.com/haqq-network/haqq/x/feemarket/types"
 	vestingtypes "github.com/haqq-network/haqq/x/vesting/types"
 )
@@ -86,6 +87,8 @@ type blockObs struct {
 	Registry                []string `json:"-"`
 	PWrites                 []string `json:"-"` // evm / feemarket parameter updates that reached a handler, in order
 	Params                  pProj    `json:"-"` // projection of the stored parameters after the block
+	Fee                     *feeStep `json:"-"` // what this block's BeginBlock did to the base fee (restart_fee.go)
+	Stores                  map[string]string `json:"-"` // commit hash of every mounted store after the block
 }
 
 func hashEvents(evs []abci.Event) string {
@@ -122,9 +125,11 @@ func runBlock(h *hist, b hBlock) (ob blockObs, err error) {
 	}
 	ob.ChainBefore = c.App.EvmKeeper.ChainID()
 	h.pw = nil
+	parent := feeParentOf(c)
 	bb := c.Begin(time.Duration(dt) * time.Second)
 	ob.Height = c.Hdr.Height
 	ob.Begin = hashEvents(bb.Events)
+	ob.Fee = feeStepOf(c, parent)
 	if os.Getenv("HVDEBUG") != "" {
 		for _, e := range bb.Events {
 			fmt.Fprintf(os.Stderr, "DBG h=%d begin %s %v\n", ob.Height, e.Type, e.Attributes)
@@ -156,6 +161,7 @@ func runBlock(h *hist, b hBlock) (ob blockObs, err error) {
 	ob.ChainAfter = c.App.EvmKeeper.ChainID()
 	ob.PWrites = h.pw
 	ob.Params = projParams(c.App, committedCtx(c.App, c.Hdr))
+	ob.Stores = storeHashes(c.App)
 	for _, ad := range c.App.EvmKeeper.GetAvailablePrecompileAddrs() {
 		ob.Registry = append(ob.Registry, new(big.Int).SetBytes(ad.Bytes()).String()+"%N")
 	}
@@ -221,7 +227,7 @@ func storeHashes(a *app.Haqq) map[string]string {
 // responses; when the block gas meter exceeds the limited gas wanted also the
 // fee market's block gas: its EndBlock event, its store, the app hash).
 // unexplained: any other difference.
-func explainPreAnte(a, b blockObs, appA, appB *app.Haqq) (known, unexplained string) {
+func explainPreAnte(a, b blockObs) (known, unexplained string) {
 	if a.Begin != b.Begin {
 		return "", "BeginBlock events differ"
 	}
@@ -254,7 +260,7 @@ func explainPreAnte(a, b blockObs, appA, appB *app.Haqq) (known, unexplained str
 		return known, ""
 	}
 	// app hashes differ: only the fee market's store (block gas) may differ
-	ha, hb := storeHashes(appA), storeHashes(appB)
+	ha, hb := a.Stores, b.Stores
 	other := []string{}
 	for name, h := range ha {
 		if hb[name] != h && name != feemarkettypes.StoreKey {
@@ -295,6 +301,9 @@ type lineage struct {
 	start     string   // Coq: chain id cached when the lineage's current instance was constructed / initialised
 	startProj string   // Coq: projection of the stored parameters when the instance was opened
 	segs      []string // Coq: finished (start, parameters at start, trace) segments: one per application instance
+	fees      []feeStep // base-fee updates of the current application instance
+	feeSegs   []feeSeg  // finished: one per application instance
+	newProc   bool      // the current instance runs in an operating-system process of its own (restart_proc.go)
 	// restart schedule: how many times in a row the process is stopped and started at boundary i (0 = keeps running)
 	reopenAt  func(i int) int
 	dir       string // goleveldb directory ("" = MemDB)
@@ -309,9 +318,16 @@ func coqOptBig(x *big.Int) string {
 	return "(Some " + coqZ(x) + ")"
 }
 
+func traceEntry(ob blockObs) string {
+	return fmt.Sprintf("(%s, %s, %s, %s, %s)", coqOptBig(ob.ChainBefore), coqOptBig(ob.ChainAfter), coqList(ob.Registry),
+		coqList(ob.PWrites), ob.Params.coq())
+}
+
 func (l *lineage) record(ob blockObs) {
-	l.trace = append(l.trace, fmt.Sprintf("(%s, %s, %s, %s, %s)", coqOptBig(ob.ChainBefore), coqOptBig(ob.ChainAfter), coqList(ob.Registry),
-		coqList(ob.PWrites), ob.Params.coq()))
+	l.trace = append(l.trace, traceEntry(ob))
+	if ob.Fee != nil {
+		l.fees = append(l.fees, *ob.Fee)
+	}
 	l.restarted = false
 }
 
@@ -328,8 +344,10 @@ func openProj(c *Chain) pProj {
 func (l *lineage) newInstance() {
 	if l.start != "" {
 		l.segs = append(l.segs, fmt.Sprintf("(%s, %s, %s)", l.start, l.startProj, coqList(l.trace)))
+		l.feeSegs = append(l.feeSegs, feeSeg{NewProc: l.newProc, Steps: l.fees})
 	}
 	l.trace = nil
+	l.fees = nil
 	l.start = coqOptBig(l.h.c.App.EvmKeeper.ChainID())
 	l.startProj = openProj(l.h.c).coq()
 }
@@ -379,6 +397,11 @@ type restartObs struct {
 	PreAnteShape int               `json:"blocks_first_after_restart_with_tx_failing_before_ante"`
 	Dropped      []string          `json:"lineages_dropped_after_known_divergence,omitempty"`
 	Halted       string            `json:"chain_halted_on_every_node,omitempty"`
+	FeeRegime    string            `json:"fee_market_regime,omitempty"`       // genesis x/feemarket parameters and consensus Block.MaxGas ("" = the defaults of chain.go)
+	BaseFees     string            `json:"base_fee_by_block,omitempty"`       // continuous node: height:value[branch of the update]
+	FeeChecked   int               `json:"base_fee_updates_checked_by_model"` // BeginBlock updates of all application instances re-evaluated by calc_base_fee in Coq
+	ProcRestarts []string          `json:"restarted_as_new_os_process,omitempty"` // per child process: boundary, blocks executed, queries compared
+	ProcBlocks   int               `json:"blocks_executed_in_restarted_processes"`
 }
 
 // freshChecks compares a freshly opened instance (lineage l, at boundary k) with the continuous node.
@@ -464,7 +487,58 @@ func restartQuerySet(ctx sdk.Context, a *app.Haqq, h *hist) []qReq {
 	return qs
 }
 
+// judgeBlock compares what a restarted node (ob; first: its first block after the restart) and the continuous node
+// (ob1) report for the same block.  msg: a violation; shape: the block has the shape of K16 (first block after a
+// restart, carrying a transaction that fails before the ante handler); known: the recorded K16 difference, drop: the
+// app hashes differ in that recorded way (the lineage is not compared any further).
+func judgeBlock(height int, name string, first bool, ob1, ob blockObs) (msg string, shape bool, known string, drop bool) {
+	shape = first && hasPreAnte(ob1)
+	d := diffBlock(ob1, ob)
+	switch {
+	case d != "" && shape:
+		// Known: the GasUsed of such a transaction (and what x/feemarket derives from the block gas meter) differs.
+		// Anything else that differs is a new violation.
+		k, unexplained := explainPreAnte(ob1, ob)
+		if unexplained != "" {
+			return fmt.Sprintf("height %d, %s (first block after its restart: true): %s", height, name, unexplained), shape, "", false
+		}
+		return "", shape, fmt.Sprintf("height %d, %s: %s", height, name, k), ob.AppHash != ob1.AppHash
+	case d != "":
+		return fmt.Sprintf("height %d, %s (first block after its restart: %v): %s", height, name, first, d), shape, "", false
+	case ob.Params.coq() != ob1.Params.coq():
+		return fmt.Sprintf("height %d, %s: stored evm / fee market parameters %s, the continuous node %s", height, name, ob.Params.coq(), ob1.Params.coq()), shape, "", false
+	}
+	return "", shape, "", false
+}
+
+// restartChain: a fresh application on db, InitChain with the deterministic genesis in the fee-market regime of the input.
+func restartChain(db dbm.DB, in hInput) *Chain {
+	if in.Fee == nil {
+		return newChain(db, nil)
+	}
+	cp := *chainConsensusParams
+	mg := in.Fee.MaxGas
+	if mg < -1 {
+		mg = -1
+	}
+	cp.Block = &tmproto.BlockParams{MaxBytes: chainConsensusParams.Block.MaxBytes, MaxGas: mg}
+	return newChainCP(db, &cp, func(gs haqqtypes.GenesisState) {
+		fg := feemarkettypes.DefaultGenesisState()
+		fg.Params = in.Fee.params()
+		gs[feemarkettypes.ModuleName] = chainEnc.Codec.MustMarshalJSON(fg)
+	})
+}
+
+// pendingCase: a history whose lock-step part is done; its restarted PROCESSES (if any) may still be running.
+type pendingCase struct {
+	finish func() []Case
+}
+
 func restartRunCase(id string, in hInput, useLevelDB bool, maxCopies int, r *Rng) []Case {
+	return restartStartCase(id, in, useLevelDB, maxCopies, r).finish()
+}
+
+func restartStartCase(id string, in hInput, useLevelDB bool, maxCopies int, r *Rng) *pendingCase {
 	kb, _ := json.Marshal(in)
 	mk := func(suffix, kind string) Case {
 		return Case{ID: id + suffix, Kind: kind, Input: in, Key: string(kb) + suffix, OracleOK: true}
@@ -472,59 +546,94 @@ func restartRunCase(id string, in hInput, useLevelDB bool, maxCopies int, r *Rng
 	main := mk("", "history")
 	obs := restartObs{Blocks: len(in.Blocks), NodeQuery: map[string]string{}, DB: "memdb"}
 	msgs := []string{}
-	fail := func(m string) []Case {
+	done := func(cs []Case) *pendingCase { return &pendingCase{finish: func() []Case { return cs }} }
+	fail := func(m string) *pendingCase {
 		main.OracleOK, main.OracleMsg, main.Obs = false, m, obs
-		return []Case{main}
+		return done([]Case{main})
+	}
+	if in.Fee != nil {
+		fj, _ := json.Marshal(in.Fee)
+		obs.FeeRegime = string(fj)
 	}
 
 	// L1: continuous, records the transactions
-	c1 := newChain(dbm.NewMemDB(), nil)
+	var c1 *Chain
+	if err := func() (err error) {
+		defer func() {
+			if r := recover(); r != nil {
+				err = fmt.Errorf("%v", r)
+			}
+		}()
+		c1 = restartChain(dbm.NewMemDB(), in)
+		return nil
+	}(); err != nil {
+		return fail("InitChain of the continuous node: " + err.Error())
+	}
 	c1.Tape = &txTape{}
 	l1 := &lineage{name: "continuous", h: &hist{c: c1, slots: map[common.Address]map[uint64]bool{}}, from: 1}
 	l1.newInstance()
 	// L2: restarted at every boundary (twice in a row at every third), on the same database
 	var db2 dbm.DB = dbm.NewMemDB()
 	dir := ""
+	cleanup := []func(){}
+	runCleanup := func() {
+		for i := len(cleanup) - 1; i >= 0; i-- {
+			cleanup[i]()
+		}
+		cleanup = nil
+	}
 	if useLevelDB {
 		d, err := os.MkdirTemp("", "hv-restart-")
 		if err != nil {
 			return fail("temp dir: " + err.Error())
 		}
 		dir = d
-		defer os.RemoveAll(dir)
+		cleanup = append(cleanup, func() { os.RemoveAll(d) })
 		ldb, err := dbm.NewGoLevelDB("application", dir)
 		if err != nil {
+			runCleanup()
 			return fail("goleveldb: " + err.Error())
 		}
 		db2 = ldb
 		obs.DB = "goleveldb"
 	}
 	fromGenesis := func(name string, db dbm.DB, sched func(i int) int) *lineage {
-		c := newChain(db, nil)
+		c := restartChain(db, in)
 		c.Tape = &txTape{Replay: true}
 		l := &lineage{name: name, h: &hist{c: c, slots: map[common.Address]map[uint64]bool{}}, from: 1, reopenAt: sched}
 		l.newInstance()
 		return l
 	}
-	l2 := fromGenesis("restarted-at-every-boundary", db2, func(i int) int {
-		if i%3 == 0 {
-			return 2
-		}
-		return 1
-	})
-	l2.dir, l2.full = dir, true
-	defer func() {
-		if dir != "" {
-			l2.h.c.DB.Close()
-		}
-	}()
-	lins := []*lineage{l2}
+	lins := []*lineage{}
+	inproc := !restartNoInProcess // harness validation only: no in-process restarts, the separate processes alone
+	var l2 *lineage
+	if inproc {
+		l2 = fromGenesis("restarted-at-every-boundary", db2, func(i int) int {
+			if i%3 == 0 {
+				return 2
+			}
+			return 1
+		})
+		l2.dir, l2.full = dir, true
+		lins = append(lins, l2)
+	}
+	if dir != "" {
+		cleanup = append(cleanup, func() {
+			if l2 != nil {
+				l2.h.c.DB.Close()
+			} else {
+				db2.Close()
+			}
+		})
+	}
 	droppedSegs := []string{}
 	_ = droppedSegs
 	// L3: keeps running for two blocks, then is stopped and started twice in a row;
 	// thorough: also the other phase, and a node restarted after every third block
-	lins = append(lins, fromGenesis("restarted-twice-at-even-boundaries", dbm.NewMemDB(), func(i int) int { return 2 * ((i + 1) % 2) }))
-	if maxCopies >= len(in.Blocks) {
+	if inproc {
+		lins = append(lins, fromGenesis("restarted-twice-at-even-boundaries", dbm.NewMemDB(), func(i int) int { return 2 * ((i + 1) % 2) }))
+	}
+	if inproc && maxCopies >= len(in.Blocks) {
 		lins = append(lins, fromGenesis("restarted-at-odd-boundaries", dbm.NewMemDB(), func(i int) int { return i % 2 }))
 		if len(in.Blocks) > 3 {
 			lins = append(lins, fromGenesis("restarted-at-every-third-boundary", dbm.NewMemDB(), func(i int) int {
@@ -561,8 +670,19 @@ func restartRunCase(id string, in hInput, useLevelDB bool, maxCopies int, r *Rng
 			copyAt[1+r.Intn(len(in.Blocks))] = true
 		}
 	}
+	if !inproc {
+		copyAt = map[int]bool{}
+	}
+	// Pk: restarted as a NEW OPERATING-SYSTEM PROCESS at boundary k (the blocks flagged "proc"): a snapshot of the
+	// continuous node's database and of the run-time bookkeeping is taken at the boundary; the child process is
+	// started once the continuous node has executed (and recorded the transactions of) all blocks
+	procs := []*procSnap{}
+	procDir := ""
 
 	nBlocks := len(in.Blocks)
+	ob1s := make([]*blockObs, nBlocks) // the continuous node's observations, per block index
+	tapeStarts := make([]int, nBlocks+1)
+	haltedAt := -1
 	dropped := map[*lineage]bool{} // lineages whose state diverged in a recorded way (K16): no further comparison
 	for i := 0; i <= nBlocks; i++ {
 		if len(dropped) > 0 {
@@ -609,6 +729,7 @@ func restartRunCase(id string, in hInput, useLevelDB bool, maxCopies int, r *Rng
 				}
 				for j := 0; j < n; j++ {
 					if err := l.reopen(); err != nil {
+						runCleanup()
 						return fail(fmt.Sprintf("%s: cannot reopen the database: %v", l.name, err))
 					}
 					prepare()
@@ -654,6 +775,24 @@ func restartRunCase(id string, in hInput, useLevelDB bool, maxCopies int, r *Rng
 				obs.Boundaries++
 				obs.Restarts++
 			}
+			if i < nBlocks && in.Blocks[i].Proc && !restartNoProcess {
+				if procDir == "" {
+					d, err := os.MkdirTemp("", "hv-restart-proc-")
+					if err != nil {
+						runCleanup()
+						return fail("temp dir: " + err.Error())
+					}
+					procDir = d
+					cleanup = append(cleanup, func() { os.RemoveAll(d) })
+				}
+				prepare()
+				ps, err := takeProcSnap(l1, i, qs, procDir)
+				if err != nil {
+					runCleanup()
+					return fail("snapshot for the restarted process: " + err.Error())
+				}
+				procs = append(procs, ps)
+			}
 		}
 		if i == nBlocks {
 			break
@@ -661,6 +800,7 @@ func restartRunCase(id string, in hInput, useLevelDB bool, maxCopies int, r *Rng
 		// ---- block i+1 on every lineage
 		b := in.Blocks[i]
 		tapeStart := len(c1.Tape.Txs)
+		tapeStarts[i] = tapeStart
 		ob1, err := runBlock(l1.h, b)
 		if err != nil {
 			// a block that the node that never stopped cannot execute (a panic in BeginBlock / EndBlock halts the
@@ -673,12 +813,16 @@ func restartRunCase(id string, in hInput, useLevelDB bool, maxCopies int, r *Rng
 				}
 			}
 			obs.Halted = fmt.Sprintf("height %d: %v", i+1, err)
+			haltedAt = i
 			break
 		}
 		obs.BlocksRun++
 		l1.record(ob1)
+		ob1c := ob1
+		ob1s[i] = &ob1c
 		obs.Ops = append(obs.Ops, ob1.Ops...)
 		obs.AppHashes = append(obs.AppHashes, trunc(ob1.AppHash, 12))
+		stop := false
 		for _, l := range lins {
 			t := l.h.c.Tape
 			t.Txs, t.Pos = c1.Tape.Txs, tapeStart
@@ -687,40 +831,52 @@ func restartRunCase(id string, in hInput, useLevelDB bool, maxCopies int, r *Rng
 			obs.BlocksRun++
 			if err != nil {
 				msgs = append(msgs, fmt.Sprintf("height %d, %s: %v (the continuous node executed the block)", i+1, l.name, err))
-				return finishRestart(main, obs, msgs, l1, lins, mk)
+				stop = true
+				break
 			}
 			l.record(ob)
 			if t.Pos != len(c1.Tape.Txs) {
 				t.Diverged = append(t.Diverged, fmt.Sprintf("height %d: built %d transactions, the continuous node %d", i+1, t.Pos-tapeStart, len(c1.Tape.Txs)-tapeStart))
 			}
-			if first && hasPreAnte(ob1) {
+			msg, shape, known, drop := judgeBlock(i+1, l.name, first, ob1, ob)
+			if shape {
 				obs.PreAnteShape++
 			}
-			if d := diffBlock(ob1, ob); d != "" && first && hasPreAnte(ob1) {
-				// the shape of K16: the first block after a restart carries a transaction that fails before the
-				// ante handler.  Known: its GasUsed (and what x/feemarket derives from the block gas meter)
-				// differs.  Anything else that differs is a new violation.
-				known, unexplained := explainPreAnte(ob1, ob, l1.h.c.App, l.h.c.App)
-				if unexplained != "" {
-					msgs = append(msgs, fmt.Sprintf("height %d, %s (first block after its restart: true): %s", i+1, l.name, unexplained))
-				} else {
-					obs.PreAnteGas = append(obs.PreAnteGas, fmt.Sprintf("height %d, %s: %s", i+1, l.name, known))
-					if ob.AppHash != ob1.AppHash {
-						dropped[l] = true
-						obs.Dropped = append(obs.Dropped, fmt.Sprintf("%s after height %d", l.name, i+1))
-					}
+			if msg != "" {
+				msgs = append(msgs, msg)
+			}
+			if known != "" {
+				obs.PreAnteGas = append(obs.PreAnteGas, known)
+				if drop {
+					dropped[l] = true
+					obs.Dropped = append(obs.Dropped, fmt.Sprintf("%s after height %d", l.name, i+1))
 				}
-			} else if d != "" {
-				msgs = append(msgs, fmt.Sprintf("height %d, %s (first block after its restart: %v): %s", i+1, l.name, first, d))
-			} else if ob.Params.coq() != ob1.Params.coq() {
-				msgs = append(msgs, fmt.Sprintf("height %d, %s: stored evm / fee market parameters %s, the continuous node %s", i+1, l.name, ob.Params.coq(), ob1.Params.coq()))
 			}
 		}
+		if stop {
+			tapeStarts[i+1] = len(c1.Tape.Txs)
+			break
+		}
 	}
-	return finishRestart(main, obs, msgs, l1, lins, mk)
+	tapeStarts[nBlocks] = len(c1.Tape.Txs)
+	// ---- the restarted processes: started now, collected by finish()
+	waits := launchProcs(procs, in, c1.Tape.Txs, tapeStarts, ob1s, haltedAt, useLevelDB)
+	return &pendingCase{finish: func() []Case {
+		defer runCleanup()
+		var procSegs []string
+		var procFees []feeSeg
+		for k, w := range waits {
+			res := <-w
+			pm, segs, fsegs := judgeProc(procs[k], res, ob1s, haltedAt, &obs)
+			msgs = append(msgs, pm...)
+			procSegs = append(procSegs, segs...)
+			procFees = append(procFees, fsegs...)
+		}
+		return finishRestart(main, obs, msgs, l1, lins, mk, procSegs, procFees)
+	}}
 }
 
-func finishRestart(main Case, obs restartObs, msgs []string, l1 *lineage, lins []*lineage, mk func(string, string) Case) []Case {
+func finishRestart(main Case, obs restartObs, msgs []string, l1 *lineage, lins []*lineage, mk func(string, string) Case, procSegs []string, procFees []feeSeg) []Case {
 	obs.Lineages = 1 + len(lins)
 	obs.Errs = l1.h.errs
 	for _, l := range lins {
@@ -741,10 +897,14 @@ func finishRestart(main Case, obs restartObs, msgs []string, l1 *lineage, lins [
 	// Coq: the in-memory fields of every application instance, block by block
 	segs := []string{}
 	static := "[]"
+	feeSegs := []feeSeg{}
 	for _, l := range append([]*lineage{l1}, lins...) {
 		l.newInstance()
 		segs = append(segs, l.segs...)
+		feeSegs = append(feeSegs, l.feeSegs...)
 	}
+	segs = append(segs, procSegs...)
+	feeSegs = append(feeSegs, procFees...)
 	regs := []string{}
 	for _, ad := range l1.h.c.App.EvmKeeper.GetAvailablePrecompileAddrs() {
 		regs = append(regs, new(big.Int).SetBytes(ad.Bytes()).String()+"%N")
@@ -752,6 +912,14 @@ func finishRestart(main Case, obs restartObs, msgs []string, l1 *lineage, lins [
 	static = coqList(regs)
 	main.Coq = fmt.Sprintf("(%s, %s,\n   %s)", coqZ(l1.h.c.EthChain), static, coqList(segs))
 	main.CoqList = "cases"
+	var bfs []string
+	for _, st := range l1Fees(l1) {
+		bfs = append(bfs, fmt.Sprintf("%d:%s[%s]", st.Height, st.After, st.Kind))
+	}
+	obs.BaseFees = strings.Join(bfs, " ")
+	for _, fs := range feeSegs {
+		obs.FeeChecked += len(fs.Steps)
+	}
 	main.Obs = obs
 	if len(msgs) > 6 {
 		msgs = msgs[:6]
@@ -773,6 +941,16 @@ func finishRestart(main Case, obs restartObs, msgs []string, l1 *lineage, lins [
 		tags["chain-halted-on-every-node"] = true
 	}
 	tags["db:"+obs.DB] = true
+	for _, t := range feeTags(l1Fees(l1), inputOf(main), len(lins) > 0) {
+		tags[t] = true
+	}
+	if obs.FeeRegime != "" {
+		tags["fee-regime:low-base-fee"] = true
+	}
+	if len(obs.ProcRestarts) > 0 {
+		tags["restarted-as-new-os-process"] = true
+		tags[fmt.Sprintf("new-os-processes=%d", len(obs.ProcRestarts))] = true
+	}
 	for t := range tags {
 		main.Tags = append(main.Tags, t)
 	}
@@ -819,7 +997,44 @@ func finishRestart(main Case, obs restartObs, msgs []string, l1 *lineage, lins [
 		pg.OracleMsg = fmt.Sprintf("%d block(s) executed first after a restart report another GasUsed for a transaction that failed before the ante handler, e.g. %s", len(obs.PreAnteGas), obs.PreAnteGas[0])
 	}
 	out = append(out, pg)
+
+	// the base-fee update of every BeginBlock of every application instance, for the model: the value stored is the one
+	// calc_base_fee gives, whatever the life of the process was (App/ProcRestartModel.v)
+	fc := mk("#fee", "history/base-fee-updates-of-every-application-instance")
+	items := []string{}
+	nsteps, nproc := 0, 0
+	for _, fs := range feeSegs {
+		items = append(items, fs.coq())
+		nsteps += len(fs.Steps)
+		if fs.NewProc {
+			nproc++
+		}
+	}
+	fc.Coq, fc.CoqList = coqList(items), "fees"
+	fc.Obs = map[string]interface{}{"application_instances": len(feeSegs), "in_processes_of_their_own": nproc, "base_fee_updates": nsteps,
+		"regime": obs.FeeRegime, "continuous_node": obs.BaseFees}
+	fc.Tags = []string{"fee-updates"}
+	fc.Nontrivial = nsteps >= 2 && obs.OracleRelevantFee()
+	out = append(out, fc)
 	return out
+}
+
+func l1Fees(l1 *lineage) []feeStep {
+	var out []feeStep
+	for _, s := range l1.feeSegs {
+		out = append(out, s.Steps...)
+	}
+	return append(out, l1.fees...)
+}
+
+func inputOf(c Case) hInput {
+	in, _ := c.Input.(hInput)
+	return in
+}
+
+// OracleRelevantFee: the continuous node took a branch of the update other than "unchanged / disabled" at least once.
+func (o restartObs) OracleRelevantFee() bool {
+	return strings.Contains(o.BaseFees, "[increase") || strings.Contains(o.BaseFees, "[decrease")
 }
 
 // ---------------------------------------------------------------- generator
@@ -1129,12 +1344,24 @@ func restartDriver(cfg Config, out *Out) error {
 	if repo == "" {
 		repo = "/repo"
 	}
+	restartNoInProcess = cfg.Args["inproc"] == "0"
+	restartNoProcess = cfg.Args["proc"] == "0"
+	// a history whose restarted processes are still running is finished (and emitted) after the lock-step part of the
+	// next one: the child processes run beside it
+	var pend *pendingCase
+	next := func(p *pendingCase) {
+		if pend != nil {
+			emit(pend.finish())
+		}
+		pend = p
+	}
 	if cfg.Replay != "" {
 		i := 0
-		return readReplayInputs(cfg.Replay, func(raw json.RawMessage) error {
+		err := readReplayInputs(cfg.Replay, func(raw json.RawMessage) error {
 			var probe map[string]json.RawMessage
 			_ = json.Unmarshal(raw, &probe)
 			if _, ok := probe["scan"]; ok {
+				next(nil)
 				out.Emit(scanCase(repo))
 				return nil
 			}
@@ -1142,15 +1369,20 @@ func restartDriver(cfg Config, out *Out) error {
 			if err := json.Unmarshal(raw, &in); err != nil {
 				return err
 			}
-			emit(restartRunCase(fmt.Sprintf("replay-%d", i), in, cfg.Args["db"] == "leveldb", len(in.Blocks), NewRng(1)))
+			next(restartStartCase(fmt.Sprintf("replay-%d", i), in, cfg.Args["db"] == "leveldb", len(in.Blocks), NewRng(1)))
 			i++
 			return nil
 		})
+		next(nil)
+		return err
 	}
 	out.Emit(scanCase(repo))
 	r := NewRng(cfg.Seed)
 	for i := 0; i < cfg.N; i++ {
 		cr := r.Fork()
+		// the generators of the regime / process dimensions are split off without advancing the main one: the base
+		// histories are the ones this driver produced before the dimensions existed
+		fr := &Rng{s: cr.s ^ 0x5fee5fee5fee5fee}
 		nb, per, copies := 4+cr.Intn(3), 3, 3
 		lvl := false
 		if cfg.Tier == "thorough" {
@@ -1160,7 +1392,17 @@ func restartDriver(cfg Config, out *Out) error {
 		if cfg.Args["db"] == "leveldb" {
 			lvl = true
 		}
-		emit(restartRunCase(fmt.Sprintf("s%d-%d", cfg.Seed, i), genRestartHistory(cr, nb, per), lvl, copies, cr))
+		in := genRestartHistory(cr, nb, per)
+		switch {
+		case i%4 == 1:
+			// low base fee, finite block gas, heavy blocks: minimum steps of the base fee with restarts (in the process
+			// and as new processes) between them
+			in = restartFeeRegime(fr, in)
+		case i%3 == 0:
+			in = restartProcPoints(fr, in)
+		}
+		next(restartStartCase(fmt.Sprintf("s%d-%d", cfg.Seed, i), in, lvl, copies, cr))
 	}
+	next(nil)
 	return nil
 }
